@@ -109,9 +109,9 @@ func solve(w *World, o *Obl, tier string, keepQuery bool) *Result {
 	if keepQuery {
 		r.Query = q
 	}
-	first, full := 3, 10
+	first, full := 2, 20
 	if tier == "thorough" {
-		first, full = 5, 60
+		first, full = 3, 90
 	}
 	t0 := time.Now()
 	defer func() { r.Seconds = time.Since(t0).Seconds() }()
@@ -141,60 +141,77 @@ func solve(w *World, o *Obl, tier string, keepQuery bool) *Result {
 		}
 		return r
 	}
-	// stage 1: z3-new alone, short
-	ans, out, _ := runSolver(ctx, "z3-new", first, q, true)
-	if ans == "unsat" {
-		r.Status, r.Solver = "discharged", "z3-new"
-		return r
-	}
-	if ans == "sat" && !hasRec {
-		r.Status, r.Solver, r.Model, r.Output = "refuted", "z3-new", out, out
-		return r
-	}
-	// stage 2: all three in parallel
+	// portfolio: z3-new and z3 4.8.12 start at once; cvc5 joins after `first` seconds; the first definite answer wins
 	type sres struct {
 		name, ans, out string
 	}
-	names := []string{"z3-new", "cvc5", "z3"}
-	if hasRec {
-		names = []string{"z3-new", "cvc5", "cvc5-plain"}
-	}
-	ch := make(chan sres, len(names))
 	cctx, cancel := context.WithCancel(ctx)
 	defer cancel()
-	for _, nm := range names {
-		go func(nm string) {
-			a, o2, _ := runSolver(cctx, nm, full, q, nm != "z3")
+	ch := make(chan sres, 4)
+	launch := func(nm string, model bool) {
+		go func() {
+			a, o2, _ := runSolver(cctx, nm, full, q, model)
 			ch <- sres{nm, a, o2}
-		}(nm)
+		}()
 	}
+	pending := 0
+	launch("z3-new", true)
+	pending++
+	if !hasRec {
+		launch("z3", false)
+		pending++
+	}
+	late := time.After(time.Duration(first) * time.Second)
+	lateStarted := false
 	var sat *sres
 	var outs []string
-	for range names {
-		s := <-ch
-		outs = append(outs, s.name+": "+s.ans)
-		if s.ans == "unsat" {
-			r.Status, r.Solver = "discharged", s.name
-			return r
-		}
-		if s.ans == "sat" && sat == nil {
-			c := s
-			sat = &c
-			if !hasRec {
-				break
+	for pending > 0 {
+		select {
+		case <-late:
+			if !lateStarted {
+				lateStarted = true
+				launch("cvc5", true)
+				pending++
+				if hasRec {
+					launch("cvc5-plain", true)
+					pending++
+				}
+			}
+		case sr := <-ch:
+			pending--
+			outs = append(outs, sr.name+": "+sr.ans)
+			if sr.ans == "unsat" {
+				r.Status, r.Solver = "discharged", sr.name
+				return r
+			}
+			if sr.ans == "sat" {
+				if sr.name == "z3" {
+					// z3 4.8.12 is not asked for a model; re-ask z3-new/cvc5 only through the running portfolio
+					c := sr
+					if sat == nil {
+						sat = &c
+					}
+				} else {
+					c := sr
+					sat = &c
+					pending = 0
+				}
+			}
+			if sr.ans == "error" {
+				outs = append(outs, firstLines(sr.out, 3))
+			}
+			if pending == 0 && !lateStarted && sat == nil {
+				lateStarted = true
+				launch("cvc5", true)
+				pending++
 			}
 		}
-		if s.ans == "error" {
-			outs = append(outs, firstLines(s.out, 3))
-		}
-	}
-	if sat != nil && !hasRec {
-		r.Status, r.Solver, r.Model, r.Output = "refuted", sat.name, sat.out, sat.out
-		return r
 	}
 	if sat != nil {
-		// recursive definitions: a sat answer is not trusted as a counterexample, but the obligation is not proved either
 		r.Status, r.Solver, r.Model, r.Output = "refuted", sat.name, sat.out, sat.out
+		if sat.name == "z3" {
+			r.Model = ""
+		}
 		return r
 	}
 	r.Status = "unknown"
